@@ -394,6 +394,9 @@ class Flattener(object):
             if isinstance(s, ast.Return):
                 out.extend(self.assign_result(res, s.value, s))
                 return out, True
+            if isinstance(s, (ast.FunctionDef, ast.ClassDef)):
+                out.append(s)          # the returns inside a nested definition are its own
+                continue
             if not _contains([s], ast.Return):
                 out.append(s)
                 continue
@@ -1183,6 +1186,95 @@ class Flattener(object):
                 i += 1
         return out
 
+    def _hoist_branch_closures(self, body):
+        """closures defined inside a branch of the function body (left there by an inlined helper) are defined at the top
+        instead: a definition only binds a name, and the closure reads its free names when it is called"""
+        hoisted = []
+
+        def scan(stmts, top):
+            out = []
+            for s in stmts:
+                if isinstance(s, ast.FunctionDef) and not top and not s.decorator_list and s.name not in self.local_defs and \
+                        not any(isinstance(x, (ast.Nonlocal, ast.Global, ast.Yield, ast.YieldFrom)) for x in ast.walk(s)) and \
+                        len([n for n in ast.walk(self._node) if isinstance(n, ast.FunctionDef) and n.name == s.name]) <= 1:
+                    hoisted.append(s)
+                    continue
+                if isinstance(s, (ast.If, ast.For, ast.While)):
+                    s.body = scan(s.body, False) or [ast.copy_location(ast.Pass(), s)]
+                    s.orelse = scan(s.orelse, False)
+                out.append(s)
+            return out
+        new = scan(body, True)
+        for h in hoisted:
+            sub = FuncInfo(self.fi.module, h, self.fi.cls)
+            sub.qualname = self.fi.qualname + '.<locals>.' + h.name
+            sub.local_closure = True
+            self.local_defs[h.name] = sub
+            self.caller_names.add(h.name)
+            self.desugared += 1
+        k = 1 if (new and isinstance(new[0], ast.Expr) and isinstance(new[0].value, ast.Constant) and isinstance(new[0].value.value, str)) else 0
+        return new[:k] + hoisted + new[k:]
+
+    def _sink_tail_through_callable_choice(self, stmts):
+        """if c: ...; f = A else: ...; f = B          if c: ...; f = A; REST[f := A]
+           REST (calls f)                        ==>   else: ...; f = B; REST[f := B]
+        where A and B are functions (closures of this function or module-level functions): the continuation is duplicated
+        into both branches - the same executions - so that each call has one callee"""
+        stmts = list(stmts)
+        for i, s in enumerate(stmts):
+            if not (isinstance(s, ast.If) and s.orelse) or i + 1 >= len(stmts):
+                continue
+            rest = stmts[i + 1:]
+
+            def final_binding(branch):
+                # the branch, or the tail of its nested else-chain, ends by binding a name to a function name
+                if _terminates(branch):
+                    return 'terminates'
+                last = branch[-1] if branch else None
+                if isinstance(last, ast.If) and last.orelse:
+                    a, b = final_binding(last.body), final_binding(last.orelse)
+                    picks = [x for x in (a, b) if x != 'terminates']
+                    return picks[0] if picks and all(p == picks[0] or p[0] == picks[0][0] for p in picks) and len(picks) == 1 else (picks[0] if len(picks) == 1 else None)
+                if isinstance(last, ast.Assign) and len(last.targets) == 1 and isinstance(last.targets[0], ast.Name) and isinstance(last.value, ast.Name):
+                    callee = last.value.id
+                    if callee in self.local_defs or self.prog.functions.get((self.fi.module.rel, callee)) is not None:
+                        return (last.targets[0].id, callee)
+                return None
+            a, b = final_binding(s.body), final_binding(s.orelse)
+            if not (isinstance(a, tuple) and isinstance(b, tuple) and a[0] == b[0] and a[1] != b[1]):
+                continue
+            f = a[0]
+            calls = [c for r_ in rest for c in ast.walk(r_) if isinstance(c, ast.Call) and isinstance(c.func, ast.Name) and c.func.id == f]
+            uses = [n for r_ in rest for n in ast.walk(r_) if isinstance(n, ast.Name) and n.id == f]
+            if not calls or len(calls) != len(uses) or _contains(rest, (ast.Break, ast.Continue)) and False:
+                continue
+
+            def specialised(callee):
+                out = []
+                for r_ in rest:
+                    c2 = clone(r_)
+                    for n in ast.walk(c2):
+                        if isinstance(n, ast.Call) and isinstance(n.func, ast.Name) and n.func.id == f:
+                            n.func = ast.copy_location(ast.Name(id=callee, ctx=ast.Load()), n.func)
+                    out.append(c2)
+                return out
+
+            def attach(branch, callee):
+                if _terminates(branch):
+                    return branch
+                last = branch[-1]
+                if isinstance(last, ast.If) and last.orelse and not (isinstance(last, ast.Assign)):
+                    fb_a, fb_b = final_binding(last.body), final_binding(last.orelse)
+                    last.body = attach(last.body, callee)
+                    last.orelse = attach(last.orelse, callee)
+                    return branch
+                return list(branch) + specialised(callee)
+            s.body = attach(list(s.body), a[1])
+            s.orelse = attach(list(s.orelse), b[1])
+            self.desugared += 1
+            return stmts[:i + 1]
+        return stmts
+
     def _split_tuple_copies(self, stmts):
         """t = (a, b); x, y = t   ==>   x, y = (a, b)      (t used nowhere else)
            x, y = (a, b)           ==>   x = a; y = b       (a, b names / constants none of which is x or y)"""
@@ -1255,6 +1347,7 @@ class Flattener(object):
     def desugar(self, stmts):
         stmts = self._sink_test_through_choice(stmts)
         stmts = self._sink_test_through_flag(stmts)
+        stmts = self._sink_tail_through_callable_choice(stmts)
         stmts = self._split_tuple_copies(stmts)
         stmts = self._coalesce_copies(stmts)
         out = []
@@ -2027,6 +2120,7 @@ class Flattener(object):
             shape = ast.dump(node)
             if self.inlined:
                 node.body = _fold_constant_tests(node.body) or [ast.Pass()]
+            node.body = self._hoist_branch_closures(node.body)
             self._desugar_partials(node)
             self._desugar_lambda_calls(node)
             self._desugar_islice(node)
